@@ -252,7 +252,9 @@ pub fn check_consistency(chain: &Blockchain, store: &mut Store, gp: u64) -> Vec<
     }
     if missing > 0 || extra > 0 {
         out.push(Finding {
-            clause: if missing > 0 && extra > 0 {
+            // (extra entries older than the window, which nothing can spend any more, do not
+            // change the class of a finding about missing in-window outputs)
+            clause: if missing > 0 && extra_in_window > 0 {
                 "utxo-missing-and-extra"
             } else if missing > 0 {
                 "utxo-missing"
